@@ -293,9 +293,34 @@ func init() {
 				},
 				"compress level":    func(p *config.PikeConfig) { p.Compresses[0].Levels = map[string]uint{"gzip": 2} },
 				"nothing (rewrite)": func(p *config.PikeConfig) {},
+				// a later save that drops a whole optional section: nothing of it may come back
+				"compress section removed": func(p *config.PikeConfig) {
+					p.Compresses = nil
+					for i := range p.Servers {
+						p.Servers[i].Compress = ""
+					}
+				},
+				"admin remark cleared": func(p *config.PikeConfig) { p.Admin.Remark = "" },
+				"second location removed": func(p *config.PikeConfig) {
+					if len(p.Locations) > 1 {
+						p.Locations = p.Locations[:1]
+						for i := range p.Servers {
+							p.Servers[i].Locations = []string{p.Locations[0].Name}
+						}
+					}
+				},
+				"upstream health check cleared": func(p *config.PikeConfig) { p.Upstreams[0].HealthCheck = ""; p.Upstreams[0].Policy = "" },
 			}
 			for ename, edit := range edits {
 				p := c17Base()
+				p.Admin.Remark = "admin remark"
+				p.Locations = append(p.Locations, config.LocationConfig{Name: "loc2", Upstream: "up", Prefixes: []string{"/x"}})
+				p.Servers[0].Locations = []string{"loc", "loc2"}
+				p.Upstreams[0].HealthCheck, p.Upstreams[0].Policy = "/ping", "first"
+				if err := p.Validate(); err != nil {
+					c.Violation("roundtrip", "harness-base-rejected", err.Error(), nil, ename, nil)
+					continue
+				}
 				if err := config.Write(p); err != nil {
 					c.Violation("roundtrip", "write-error", err.Error(), nil, ename, nil)
 					continue
@@ -354,6 +379,17 @@ func init() {
 				mk([]string{"a", "b"}, "b", map[string]string{"l1": "b", "l2": "a"}, []string{"l2", "l1"}, "cp"),
 				mk([]string{"a"}, "a", map[string]string{"l2": "b"}, []string{"l2"}, "cq"),
 				mk([]string{"b"}, "b", map[string]string{"l1": "a", "l2": "b"}, []string{"l1"}, "cp"),
+			}
+			// accepted configurations whose names carry leading / trailing blanks, upper case or non-ASCII letters
+			for _, nm := range []string{"main ", " main", "Main", "caché", "a b"} {
+				p := mk([]string{"a"}, "a", map[string]string{"l1": "a"}, []string{"l1"}, "cp")
+				p.Caches[0].Name, p.Servers[0].Cache = nm, nm
+				p.Compresses[0].Name, p.Servers[0].Compress = nm, nm
+				p.Locations[0].Name, p.Servers[0].Locations = nm, []string{nm}
+				p.Upstreams[0].Name, p.Locations[0].Upstream = nm, nm
+				if p.Validate() == nil {
+					menu = append(menu, p)
+				}
 			}
 			// accepted configurations whose cache names a store that cannot be opened when the configuration is applied
 			for _, u := range []string{c11BadStore, "redis://127.0.0.1:1/?timeout=100ms"} {
